@@ -24,6 +24,23 @@ CLAIMS = {
             "factory writes the registry; no parser code writes class/module-level state outside three confirmed owners; the tokeniser "
             "memo is keyed by all arguments and never mutated by callers; symbol-table keys are lower-cased consistently. Not decided: "
             "equality of results across histories.", "DESIGN.md §4 C09"),
+    "C06": ("who-may-call over the resolved call graph; exception-class conversion table; guard classification of explicit raises; per-call-site protocol check",
+            "Decides: no call path from the parse/print/read entry points reaches a process-terminating call (3 known sites echoed); every fparser "
+            "exception class raised as a signal is converted at Program.__new__; each of the 77 explicit raises of a non-convertible class is "
+            "discharged by a guard classification and a matcher raise guarded by the content of the parsed text is a violation (1 known); "
+            "source files are opened with the registered decode-error handler; per block-engine call site, every get_*() protocol method exists "
+            "on every class its receiver can be; symbol-table clean-up keys are case-normalised. Not decided: termination, the time bound, "
+            "implicit exceptions (IndexError etc.).", "DESIGN.md §4 C06"),
+    "C10": ("ownership lint, typestate on the node constructor, sibling-contradiction rule between _set_parent and walk",
+            "Decides: only _set_parent/Base.__init__ assign .parent; Base.__new__ parents the children of every node it builds before init/return "
+            "(typestate over its paths); every init stores what it is given into items/content; _set_parent and walk both fully descend into "
+            "lists and tuples and walk is a recursive pre-order traversal in list order; get_root follows .parent; no matcher reuses a node "
+            "object (350 matchers). Not decided: stale parents after backtracking through the per-line cache.", "DESIGN.md §4 C10"),
+    "C18": ("interface agreement between __getnewargs__ and __new__ over the class hierarchy; abstract interpretation of __new__ under the copy flag",
+            "Decides: for each of 661 node classes the tuple returned by the resolved __getnewargs__ binds to the resolved __new__, the _deepcopy "
+            "flag is True and under it __new__ returns a fresh object without running a matcher (each distinct __new__ interpreted abstractly, "
+            "flag forwarding checked); every attribute __getnewargs__ reads is assigned at every object.__new__ construction site; no class "
+            "overrides the copy protocol otherwise. Not decided: equality of the copy's text/structure.", "DESIGN.md §4 C18"),
 }
 
 NA = {
